@@ -109,24 +109,29 @@ def run(prop: str, tier: str, replay: str | None) -> int:
 
     # ---- 1. regenerate ------------------------------------------------------------------
     g = gen.regenerate()
-    if g["error"]:
-        broken.append({"kind": "gen", "what": g["error"]})
+    targets = list(getattr(mod, "LEAN_TARGETS", [f"Aiortc.Props.{prop}"]))
+    has_driver = bool(getattr(mod, "DRIVERS", []))
+    closure = core.import_closure(targets + ([f"Drivers.{prop}"] if has_driver else []), modules=True)
+    gen_errors = {u: e for u, e in g["errors"].items() if f"Aiortc.Gen.{u}" in closure}
+    for u, e in gen_errors.items():
+        broken.append({"kind": "gen", "unit": u, "what": e})
 
     # ---- 2. build -----------------------------------------------------------------------
-    targets = list(getattr(mod, "LEAN_TARGETS", [f"Aiortc.Props.{prop}"]))
     build_ok = False
     driver_ok = False
-    if not g["error"]:
+    if not gen_errors:
         ok, out = core.lake_build(targets)
         build_ok = ok
         if not ok:
             errs = [l for l in out.splitlines() if "error" in l.lower()][:20]
             broken.append({"kind": "build", "what": "lake build " + " ".join(targets) + " failed", "errors": errs})
-        ok2, out2 = core.lake_build(["modeldrv"])
+    if has_driver:
+        # the driver only needs the executable model; try to build it even if a proof broke
+        ok2, out2 = core.lake_build([f"drv_{prop}"])
         driver_ok = ok2
         if not ok2:
             errs = [l for l in out2.splitlines() if "error" in l.lower()][:20]
-            broken.append({"kind": "build", "what": "lake build modeldrv failed", "errors": errs})
+            broken.append({"kind": "build", "what": f"lake build drv_{prop} failed", "errors": errs})
 
     # ---- 3. audit -----------------------------------------------------------------------
     names: list[str] = []
@@ -190,7 +195,7 @@ def run(prop: str, tier: str, replay: str | None) -> int:
             lines = [comp.model_line(cases[i]) for i in idx]
             if lines:
                 try:
-                    outs = core.run_driver(lines)
+                    outs = core.run_driver(prop, lines)
                     for i, o in zip(idx, outs):
                         model_outs[i] = o
                 except Exception as exc:
@@ -251,11 +256,11 @@ def run(prop: str, tier: str, replay: str | None) -> int:
             line = comp.model_line(c)
             if line is None:
                 return False
-            return core.run_driver([line])[0] != comp.impl(c)
+            return core.run_driver(prop, [line])[0] != comp.impl(c)
 
         small = shrink_case(comp, item["case"], still, budget=150)
         if small is not item["case"]:
-            item = dict(item, case=small, impl=comp.impl(small), model=core.run_driver([comp.model_line(small)])[0],
+            item = dict(item, case=small, impl=comp.impl(small), model=core.run_driver(prop, [comp.model_line(small)])[0],
                         shrunk_from=item["case"])
         return item
 
